@@ -345,13 +345,19 @@ def check_c15(tier):
         for vname, eol in variants:
             t2 = text.replace("\n", eol)
             rendered.append((c, t2, tl, vname))
-            hcases.append({"id": len(hcases), "ops": [{"op": "analyze", "path": "/vws/p/test_pos.py", "text": t2},
+            # the same path is first analysed with a decoy of IDENTICAL byte length whose line starts differ
+            # (the first line moved to the end): caches keyed by path must not leak into the real analysis
+            first, rest = t2.split(eol, 1)
+            decoy = rest + first + eol
+            assert len(decoy.encode()) == len(t2.encode())
+            hcases.append({"id": len(hcases), "ops": [{"op": "analyze", "path": "/vws/p/test_pos.py", "text": decoy},
+                                                      {"op": "analyze", "path": "/vws/p/test_pos.py", "text": t2},
                                                       {"op": "snapshot", "full": True}]})
     results = list(C.run_harness(hcases))
     for (c, text, tl, vname), res in zip(rendered, results):
         V.count()
         V.nontriv((json.dumps({k: c[k] for k in ("c", "pk", "sf", "nm")}, sort_keys=True), vname))
-        snap = res["res"][1]
+        snap = res["res"][2]
         ex = {"construct": c["c"], "prefix": c["pk"], "string_form": c["sf"], "name_kind": c["nm"], "eol": vname, "text": text}
         if not isinstance(snap, dict):
             V.violation(dict(ex, result=res["res"]), "analysis failed or panicked")
